@@ -17,9 +17,9 @@
 (*              invariants.                                                        *)
 (* Domains (MC_RandomWalk.tla): WalkDomains (findwalks) / WalkerDomains (walker) =  *)
 (* pairs <<n, loopnodes>> (every 0/1 digraph on n nodes, self-loops allowed on      *)
-(* loopnodes); LemmaDomains = pairs                                                 *)
-(* <<n, sym>> (every connected graph / strongly connected digraph on n nodes with   *)
-(* weights 1, 2); Q = number of steps of the walker.                               *)
+(* loopnodes); LemmaDomains = triples <<n, sym, heavy>> (every connected graph /     *)
+(* strongly connected digraph on n nodes with weights 1 and, if heavy, 2);          *)
+(* Q = number of steps of the walker.                                               *)
 EXTENDS RandomWalk
 CONSTANTS Machines, WalkDomains, WalkerDomains, LemmaDomains, Q
 VARIABLES inp, st
@@ -35,9 +35,9 @@ WDir(n, E, H) == EMat(n, LAMBDA i, j : IF <<i, j>> \in H THEN 2 ELSE IF <<i, j>>
 WSym(n, E, H) == EMat(n, LAMBDA i, j :
                    LET p == IF i < j THEN <<i, j>> ELSE <<j, i>> IN
                    IF p \in H THEN 2 ELSE IF p \in E THEN 1 ELSE 0)
-WInputs(n, sym) ==
-  IF sym THEN UNION {{WSym(n, E, H) : H \in SUBSET E} : E \in SUBSET UPairs(n)}
-         ELSE UNION {{WDir(n, E, H) : H \in SUBSET E} : E \in SUBSET DPairs(n)}
+WInputs(n, sym, heavy) ==
+  IF sym THEN UNION {{WSym(n, E, H) : H \in (IF heavy THEN SUBSET E ELSE {{}})} : E \in SUBSET UPairs(n)}
+         ELSE UNION {{WDir(n, E, H) : H \in (IF heavy THEN SUBSET E ELSE {{}})} : E \in SUBSET DPairs(n)}
 Dim(M) == Cardinality(DOMAIN M)
 NI == Dim(inp)
 
@@ -47,7 +47,7 @@ Init ==
   \E m \in Machines :
      /\ st = [m |-> m, pc |-> "init"]
      /\ IF m = "lemma"
-        THEN \E d \in LemmaDomains : inp \in WInputs(d[1], d[2])
+        THEN \E d \in LemmaDomains : inp \in WInputs(d[1], d[2], d[3])
         ELSE \E d \in (IF m = "walker" THEN WalkerDomains ELSE WalkDomains) :
                 inp \in BinInputs(d[1], d[2])
 
@@ -176,6 +176,7 @@ LemmaPagerank ==
               /\ \A r \in {"floor", "round", "ceil"} :
                     /\ PrPositive(NI, R6(r)) /\ PrSumsToOne(NI, R6(r), Q6)
                     /\ PrEquation(NI, inp, p, q, f, RS(r), S)
+                    /\ PrNearExact(NI, inp, p, q, f, R6(r))
               (* a vector that is not the solution is rejected: first entry off by 1%   *)
               /\ LET B == [i \in 1..NI |-> RS("round")[i] + (IF i = 1 THEN S \div 100 ELSE 0)]
                  IN ~PrEquation(NI, inp, p, q, f, B, S)
